@@ -325,6 +325,72 @@ def f_glue(d, raise_at, catch_at, blocks, nosrc=False):
         prog.reset_globals()
 
 
+@A()
+def ho_leaf(out, blocks):
+    out.append(D.format_asynq_stack())
+    if blocks:
+        yield _It(1)
+        out.append(D.format_asynq_stack())
+    return 1
+
+
+@A()
+def ho_maker(out, blocks, depth):
+    # creates the task and hands it over unawaited: the created task outlives its creator
+    if depth > 0:
+        box = yield ho_maker.asynq(out, blocks, depth - 1)
+        return box
+    t = ho_leaf.asynq(out, blocks)
+    return [t]
+
+
+@A()
+def ho_root(out, blocks, depth, via):
+    box = yield ho_maker.asynq(out, blocks, depth)
+    if via == 0:
+        r = yield box[0]
+    elif via == 1:
+        r = box[0].value()
+    else:
+        r = yield ho_waiter.asynq(box[0])
+    return r
+
+
+@A()
+def ho_waiter(t):
+    return (yield t)
+
+
+def f_handover(blocks, depth, via):
+    """format_asynq_stack() inside a task whose creator (and the creator's creator) already finished"""
+    bl, dp, vv = concb(blocks), conc(depth, 3), conc(via, 3)
+    rec.clear_fail()
+    prog.reset_globals()
+    _B.cur[0] = None
+    out = []
+    try:
+        try:
+            ho_root(out, bl, dp, vv)
+        except Exception as e:
+            prog.reraise_control(e)
+            return rec.fail("hand-over chain (depth %d, via %d): %r escaped" % (dp, vv, e))
+        want = ["ho_root"] + ["ho_maker"] * (dp + 1) + ["ho_leaf"]
+        for st in out:
+            if st is None or len(st) != len(want):
+                return rec.fail("format_asynq_stack() in a task that outlived its creators lists %r entries, "
+                                "expected %d (the task and each task that created it)" % (None if st is None else len(st), len(want)))
+            for entry, name in zip(st, want):
+                if name not in entry:
+                    return rec.fail("format_asynq_stack() entry %r does not name %s" % (entry[:100], name))
+        if len(out) != (2 if bl else 1):
+            return rec.fail("leaf did not run as expected")
+        rec.wit("paths")
+        rec.done(("handover", bl, dp, vv), True)
+        return True
+    finally:
+        prog.reset_globals()
+
+
 # ---------------------------------------------------------------------------------------
 # (c) totality of str / repr / dump / format_error
 
@@ -664,6 +730,9 @@ def conds(tier):
                     pin=1, builds=("C", "P"), budget=200,
                     family="glued tracebacks / format_asynq_stack: depth x raise position x re-raise position",
                     encodes=ENC))
+    out.append(Cond("handover", f_handover, [B("blocks"), I("depth", 0, 2), I("via", 0, 2)], pin=0, builds=("C", "P"),
+                    budget=100, family="format_asynq_stack in a task that outlives the tasks that created it (created, "
+                    "returned unawaited, awaited later elsewhere)", encodes=ENC))
     out.append(Cond("total", f_total, [I("which", 0, nobj - 1), I("how", 0, 4)], pin=0, builds=("C", "P"), budget=200,
                     family="str/repr/dump totality: %d object states x 5 renderings" % nobj, encodes=ENC))
     out.append(Cond("midrun", f_midrun, [I("how", 0, 3)], pin=0, builds=("C", "P"), budget=100,
